@@ -77,6 +77,17 @@ Theorem C18_no_deadlock :
   s_flight s <> [] \/ (s_queue s <> [] /\ In p (s_idle s)).
 Proof. exact no_deadlock. Qed.
 
+(** honest answers never trip the chunk-boundary check: when the chain's headers verify at
+    the clock readings of the answers, no run ends with the "not a chain" error *)
+Theorem C18_honest_chunks_always_chain :
+  forall drift tv maxcap per (from : hdr) (to : N) peers (c : N -> hdr) (top : N) (evs : list event),
+  h_nil from = false -> h_height from + 1 < two64 -> to < two64 -> 1 <= per ->
+  (forall n, n <= top -> h_height (c n) = n) ->
+  honest_run drift tv maxcap from c top (get_range maxcap per from to peers) evs ->
+  (forall p now fs, In (ERespond p now fs) evs -> chain_verifies drift tv from c top now) ->
+  GetRangeByHeight drift tv maxcap per from to peers evs <> Some (RErr ENotChain).
+Proof. exact honest_no_chain_error. Qed.
+
 (** Head / Get / GetByHeight: the client-side processing of a server's one-header answer is
     the identity on the header (the codec round trip itself is observed by the driver) *)
 Theorem C18_roundtrip :
@@ -122,4 +133,5 @@ Print Assumptions C18_measure_counts_missing_headers.
 Print Assumptions C18_progress.
 Print Assumptions C18_rejected_answer_keeps_measure.
 Print Assumptions C18_no_deadlock.
+Print Assumptions C18_honest_chunks_always_chain.
 Print Assumptions C18_roundtrip.
